@@ -147,8 +147,12 @@ def invocations(ctx: Ctx):
         if rng.random() < 0.15:
             n = rng.choice(sorted(names))
             args.insert(rng.randrange(len(args) + 1), f"{n}={rng.choice(GARBAGE[cases_of(names[n][0])])}")
-        if rng.random() < 0.1:
-            args.append(args[0].split("=")[0] + "=" + tok(args[0].split("=")[0]))      # duplicate setting: the last one wins
+        first = args[0].split("=")[0]
+        fields = [names[a.split("=")[0]][1] for a in args if a.split("=")[0] in names]
+        if rng.random() < 0.1 and first in names and fields.count(names[first][1]) == 1:
+            # duplicate setting: the last one wins.  Not combined with a deprecated alias of the same field on the same line: the order in
+            # which a repeated name and its alias take effect is not documented (the code applies them in order of FIRST occurrence)
+            args.append(first + "=" + tok(first))
         out.append(args)
     return out
 
